@@ -49,3 +49,14 @@ package criteria_ordering
 //@   loop 1 invariant [shift_so_that_the_smallest_importance_is_at_least_one] iter == 0 ==>
 //@             (sorted[0].Weight <= 1.0 ? (dif == 1.0 - sorted[0].Weight && minWeight == 1.0) : (dif == 0.0 && minWeight == sorted[0].Weight))
 //@   loop 1 hint [inverse_of_the_shifted_importance] let k = i in sorted[k].Weight == minWeight / (head(sorted[k].Weight) + dif) && total == head(total) + sorted[k].Weight
+
+// the ordering named in the request (the first registered one when none is named); unknown names are rejected
+//@ spec resolverName(r CriteriaOrderingResolver) string
+//@ ifacemethod CriteriaOrderingResolver.Identifier
+//@   ensures result == resolverName(self)
+//@ func FetchOrderingResolver
+//@   property C15 C16 C20
+//@   ensures [by_name_default_first] len(resolver.Ordering) == 0 ? result == (*resolvers)[0]
+//@             : (exists k int :: 0 <= k && k < len(*resolvers) && result == (*resolvers)[k] && resolverName(result) == resolver.Ordering
+//@                && forall j int :: 0 <= j && j < k ==> resolverName((*resolvers)[j]) != resolver.Ordering)
+//@   loop 1 invariant [none_so_far] forall j int :: 0 <= j && j < iter ==> resolverName((*resolvers)[j]) != resolver.Ordering
